@@ -74,19 +74,21 @@ def enumerate_ridge_cases(b):
     return out
 
 
-def render(mh, mw, ridges, ep):
-    """maps with channels (ascender, descender, baseline, end points, region separators): Gaussian-profile ridges"""
+def render(mh, mw, ridges, ep, window=None):
+    """maps with channels (ascender, descender, baseline, end points, region separators): Gaussian-profile ridges.
+    window = w: only the rows within w of a ridge are written (tall maps with many ridges; exp(-w*w/2) is dropped)"""
     m = np.zeros((mh, mw, 5), np.float32)
-    yy = np.arange(mh)[:, None].astype(np.float64)
     for r in ridges:
         y, x0, x1, dy = r["y"], r["x0"], r["x1"], r.get("dy", 0)
+        lo, hi = (0, mh) if window is None else (max(0, min(y, y + dy) - window), min(mh, max(y, y + dy) + window + 1))
+        yy = np.arange(lo, hi)[:, None].astype(np.float64)
         xs = np.arange(x0, x1 + 1)
         yc = y + (xs - x0) * (dy / float(max(1, x1 - x0)))           # ridge centre per column (flat ridge: dy = 0)
         prof = np.exp(-0.5 * (yy - yc[None, :]) ** 2.0).astype(np.float32)
-        m[:, x0:x1 + 1, 2] = np.maximum(m[:, x0:x1 + 1, 2], prof)
+        m[lo:hi, x0:x1 + 1, 2] = np.maximum(m[lo:hi, x0:x1 + 1, 2], prof)
         band = np.abs(yy - yc[None, :]) <= 3
-        m[:, x0:x1 + 1, 0] = np.where(band, r["a2"] / 2.0, m[:, x0:x1 + 1, 0])
-        m[:, x0:x1 + 1, 1] = np.where(band, r["d2"] / 2.0, m[:, x0:x1 + 1, 1])
+        m[lo:hi, x0:x1 + 1, 0] = np.where(band, r["a2"] / 2.0, m[lo:hi, x0:x1 + 1, 0])
+        m[lo:hi, x0:x1 + 1, 1] = np.where(band, r["d2"] / 2.0, m[lo:hi, x0:x1 + 1, 1])
         if ep:
             for xe, ye in ((x0, y), (x1, y + dy)):
                 m[max(0, ye - 2):ye + 3, max(0, xe - 1):xe + 2, 3] = 1.0
@@ -101,7 +103,7 @@ class StubNet:
     def get_maps_with_optimal_resolution(self, image):
         c = self.case
         self.seen = [int(image.shape[0]), int(image.shape[1])]
-        return render(c["mh"], c["mw"], c["ridges"], c["ep"]), c["ds"]
+        return render(c["mh"], c["mw"], c["ridges"], c["ep"], c.get("window")), c["ds"]
 
 
 def _milli(v):
@@ -207,3 +209,108 @@ def run_case(case):
 
 def enumerate_pixel_cases(max_h, max_w):
     return [{"mode": "pixels", "H": h, "W": w, "k": k} for h in range(1, max_h + 1) for w in range(1, max_w + 1) for k in range(4)]
+
+
+# --------------------------------------------------------------------------------------------- scale + history
+# Pages of a SCALE the bounded spaces above cannot reach (hundreds / more than a thousand ridges in one column, ridges and
+# coordinates beyond 16-bit ranges, heights beyond 255 map px), decoded one after the other by ONE long-lived engine (the way
+# a caller that processes a directory of pages uses it), some of them after a call that fails half-way and the first one once
+# more at the end.  TLC cannot enumerate such configurations, but it does not have to: the ridges of the sampled page are
+# recorded in the trace (integers) and LayoutDecode_Trace evaluates the SAME per-ridge clause (LineMatches) on them; only the
+# search for a bijection is replaced by its equivalent for separated ridges (ScaleOnePerRidge).
+def scale_sequence(tier, seed=0):
+    """parameter dicts of the pages; everything else (ridges, heights) is derived from them by scale_case()"""
+    seq = [
+        {"n": 300, "mw": 64, "ds": 2, "k": 1, "ep": False, "rm": True, "via": "detect"},      # > 255 ridges, through detect + un-rotation
+        {"n": 523, "mw": 72, "ds": 1, "k": 0, "ep": True, "rm": False, "via": "parse", "fail_before": True},   # > 2 x 256
+        {"n": 2, "mw": 40000, "ds": 2, "k": 3, "ep": False, "rm": True, "via": "detect"},     # columns > 32767, coordinates > 65535
+        {"n": 1040, "mw": 64, "ds": 3, "k": 0, "ep": False, "rm": False, "via": "parse"},     # > 1024 ridges, rows > 32767 / ds
+        {"n": 3, "mw": 1100, "ds": 8, "k": 2, "ep": True, "rm": True, "via": "detect", "hbig": True, "y0": 400, "pitch": 400,
+         "fail_before": True},                                                                 # heights > 255 map px
+        {"n": 5, "mw": 64, "ds": 1, "k": 1, "ep": False, "rm": False, "via": "detect", "pitch": 16900},   # map rows > 32767 and > 65535
+    ]
+    if tier == "thorough":
+        seq += [{"n": 2200, "mw": 64, "ds": 1, "k": 0, "ep": False, "rm": False, "via": "parse"},   # > 2048 ridges, rows > 32767
+                {"n": 700, "mw": 64, "ds": 4, "k": 3, "ep": True, "rm": True, "via": "detect"}]
+    for i, p in enumerate(seq):
+        p["seed"] = seed * 1009 + i
+    seq.append(dict(seq[0], again=True))            # the first page once more, after everything else
+    return seq
+
+
+def scale_case(p):
+    rng = np.random.RandomState(p["seed"] % (2 ** 31))
+    n, mw = p["n"], p["mw"]
+    ridges, y = [], p.get("y0", 8)
+    for _ in range(n):
+        if mw <= 128:
+            x0, x1 = int(rng.randint(3, 20)), int(rng.randint(mw - 30, mw - 3))
+        else:                                     # long ridges: the whole width, or a short one far to the right
+            x0 = int(rng.randint(3, 20)) if rng.randint(0, 2) == 0 or not ridges else int(rng.randint(mw - 300, mw - 200))
+            x1 = int(rng.randint(mw - 30, mw - 3))
+        a2, d2 = int(rng.randint(2, 21)), int(rng.randint(1, 11))                 # half map pixels
+        if p.get("hbig"):
+            a2, d2 = int(rng.randint(520, 700)), int(rng.randint(2, 11))
+        ridges.append({"y": y, "x0": x0, "x1": x1, "a2": a2, "d2": d2, "dy": 0})
+        y += p.get("pitch", 15) + int(rng.randint(0, 3))
+    mh = ridges[-1]["y"] + 7
+    return {"mode": "scale", "via": p["via"], "k": p["k"], "ds": p["ds"], "ep": bool(p["ep"]), "rm": bool(p.get("rm", False)),
+            "ridges": ridges, "mh": mh, "mw": mw, "window": 10}
+
+
+def _lines_of(b_list, h_list, t_list):
+    out = []
+    for b, h, t in zip(b_list, h_list, t_list):
+        b = np.asarray(b, dtype=float)
+        out.append({"pts": [[_milli(x), _milli(y)] for x, y in b], "h": [_milli(h[0]), _milli(h[1])], "tl": _bbox(t)})
+    return out
+
+
+def run_scale_sequence(seq, upto=None):
+    """the pages of `seq` (all, or the first upto + 1) through one engine and one stub network; one trace per page"""
+    eng = make_engine()
+    net = StubNet(None)
+    eng.parsenet = net
+    traces = []
+    for p in seq[:None if upto is None else upto + 1]:
+        case = scale_case(p)
+        net.case = case
+        k, ds = case["k"], case["ds"]
+        rec = dict(case, outcome="ok", seen=[0, 0], lines=[], plines=[], reg=[], nreg=0, n=p["n"], again=bool(p.get("again", False)))
+        if p.get("fail_before"):
+            # a call on the same long-lived engine that raises half-way (no down-sampling factor: the first decoded line cannot be
+            # scaled); whatever it does, it must not leave anything behind for the next page
+            try:
+                with contextlib.redirect_stdout(io.StringIO()), warnings.catch_warnings(), np.errstate(all="ignore"):
+                    warnings.simplefilter("ignore")
+                    eng.parse(render(60, 64, [{"y": 8, "x0": 5, "x1": 40, "a2": 6, "d2": 3}, {"y": 30, "x0": 9, "x1": 50, "a2": 8, "d2": 2}],
+                                     False), None)
+            except Exception:
+                pass
+        np.random.seed(12345)
+        try:
+            with contextlib.redirect_stdout(io.StringIO()), warnings.catch_warnings(), np.errstate(all="ignore"):
+                warnings.simplefilter("ignore")
+                if case["via"] == "parse":
+                    b_list, h_list, t_list = eng.parse(render(case["mh"], case["mw"], case["ridges"], case["ep"], 10), ds)
+                    p_list = []
+                else:
+                    rot_h = case["mh"] * ds + (ds - 1 if case["rm"] else 0)
+                    rot_w = case["mw"] * ds + (ds // 2 if case["rm"] else 0)
+                    orig = (rot_w, rot_h) if k in (1, 3) else (rot_h, rot_w)
+                    img = np.broadcast_to(np.uint8(0), orig + (3,))          # a blank page of that size without its memory
+                    p_list, b_list, h_list, t_list = eng.detect(img, rot=k)
+                    rec["seen"] = net.seen
+                    np.random.seed(12345)
+                    pb, _, _ = eng.parse(render(case["mh"], case["mw"], case["ridges"], case["ep"], 10), ds)
+                    rec["plines"] = [{"pts": [[_milli(x), _milli(y)] for x, y in np.asarray(b, dtype=float)]} for b in pb]
+            rec["lines"] = _lines_of(b_list, h_list, t_list)
+            if not (len(b_list) == len(h_list) == len(t_list)):
+                rec["outcome"] = "exception:ListLengths"
+            rec["nreg"] = len(p_list)
+            if len(p_list):
+                rec["reg"] = _bbox(np.concatenate([np.asarray(q, dtype=float).reshape(-1, 2) for q in p_list], axis=0))
+        except Exception as ex:          # part of the observation
+            rec["outcome"] = "exception:" + type(ex).__name__
+        traces.append(rec)
+    return traces
